@@ -179,6 +179,11 @@ func (c *shardedMap) ExpireAll(ctx context.Context) {
 		b.Unlock()
 	}
 
+	if cnt > 0 {
+		// Expirations were set, cleanup of UnlimitedTTL cache can not be skipped anymore.
+		atomic.AddInt64(&c.t.expirationsSet, 1)
+	}
+
 	c.t.NotifyExpiredAll(ctx, start, cnt)
 }
 
@@ -289,6 +294,10 @@ func (c *ShardedMap) Restore(r io.Reader) (int, error) {
 			}
 
 			return n, err
+		}
+
+		if e.E != 0 {
+			atomic.AddInt64(&c.t.expirationsSet, 1)
 		}
 
 		h := xxhash.Sum64(e.K)
